@@ -627,5 +627,22 @@ pub fn run(run: &Run) {
     }
     run.assume("NaN results are compared by position (any non-poison NaN payload accepted); every other value bit for bit");
     run.assume("the harness computes the scalar reference with the same libm and hardware in the same build");
+    // log of zero probabilities: every placement of -inf entries among finite ones (lengths 2..=10; the -inf
+    // entries contribute nothing; all -inf is recorded, not judged)
+    for n in 2..=10usize {
+        for mask in 1u32..(1 << n) {
+            let x: Vec<f64> = (0..n).map(|i| if mask >> i & 1 == 1 { [-1.25, 0.5, 3.0, -700.0, 2.0][(i * 3 + n) % 5] } else { f64::NEG_INFINITY }).collect();
+            logdomain(run, &x, "with -inf entries");
+            run.nontrivial(1);
+        }
+    }
+    for &n in &[17usize, 64, 100, 1025] {
+        for lead in [1usize, 2, 3, n / 2, n - 1] {
+            let x: Vec<f64> = (0..n).map(|i| if i < lead { f64::NEG_INFINITY } else { -0.5 * (i % 7) as f64 }).collect();
+            logdomain(run, &x, "leading -inf entries");
+            let y: Vec<f64> = x.iter().rev().cloned().collect();
+            logdomain(run, &y, "trailing -inf entries");
+        }
+    }
     run.assume("0x0 Matrix arithmetic and logsumexp of an empty slice are recorded, not judged");
 }
